@@ -21,10 +21,7 @@ def run(rep, tier):
             rep.violation("StreamRead.tla violates %s" % r.invariant_violated, payload=r.out[-5000:])
         else:
             raise CheckError("TLC failed on StreamRead.tla:\n" + r.out[-3000:])
-    r2 = common.tlc("StreamRead", "StreamRead_asym.cfg", SPECDIR, workers=4, timeout=600)
-    if "PrefixNeverAccepted" not in r2.invariant_violated:
-        raise CheckError("vacuity guard: the asymmetric reader should violate PrefixNeverAccepted in StreamRead.tla")
-    rep.add(model_sensitive_to_skipped_field=True)
+    common.negative_control(rep, "StreamRead", "StreamRead_asym.cfg", SPECDIR, "a reader that skips a field must violate an invariant")
 
     # the corpus is read back twice: everything in the plain build, a smaller corpus in the ASan/UBSan build (every throw is
     # very slow under ASan: __asan_handle_no_return re-maps the stack shadow)
